@@ -875,6 +875,12 @@ def implies_ge0(facts, q, depth=2):
         elif f[0] == "eq0":
             ge.append(f[1])
             ge.append(-f[1])
+        elif f[0] == "ne0":
+            # unsigned quantities: p != 0 with p a sum of non-negative terms means p >= 1
+            if f[1].nonneg_coeffs():
+                ge.append(f[1] - Poly.const(1))
+            elif (-f[1]).nonneg_coeffs():
+                ge.append(-f[1] - Poly.const(1))
     return _imp(ge, q, depth)
 
 
